@@ -19,7 +19,8 @@ import (
 func init() {
 	register("c06cli", "real `endorse` command (cobra wiring of cmd/endorse.go, cmd/flags.go) over recording doubles: technology subsets x "+
 		"S_CRTM side file absent/present in both spellings x snapshot/manifest mode x images; the written endorsement is decoded and held "+
-		"against the document oracle of C06; non-trivial = the run wrote a document.", runC06CLI)
+		"against the document oracle of C06; plus `--snp_product Turin` (no address width: the run must fail, write / sign / print nothing) next to the same flags with Milan; "+
+		"non-trivial = the run wrote a document, or is one of the product cases.", runC06CLI)
 }
 
 func runC06CLI(c *Ctx) {
@@ -86,6 +87,60 @@ func runC06CLI(c *Ctx) {
 						c.Case(line, fmt.Sprintf("res=%s eff=%s", res.res, strings.Join(res.effs, ",")), wrote)
 						c.Count(fmt.Sprintf("cli/snp%s-tdx%s/svn%d/alt%s/%s", b2s(tech[0]), b2s(tech[1]), svn, b2s(alt), res.res))
 					}
+				}
+			}
+		}
+	}
+
+	// ---- `--snp_product Turin` ----------------------------------------------------------------------------------
+	// kds.ParseProductLine accepts "Turin" (enum value 3), for which sev.bitWidth has no entry.  Before the product-check fix the
+	// command measured an image whose ROM and SNP metadata ranges all have two pages or more with the VMSA pages at
+	// guest-physical address 0 and signed / printed that — the launch digest of no AMD product.  Clause of C06
+	// ("a failing constituent measurement fails the request; no document") at the seam with C04: the run must fail,
+	// write no file, sign nothing and (--measurement_only) print no measurement; the same flags with Milan complete.
+	wide := &c06Image{name: "wide-8k", ld: map[string][]byte{}, mr: map[string][]byte{},
+		fw: c04Standard(0x2000, 0x80b004, []c04Sec{{0x80D000, 0x2000, 2}, {0x800000, 0x9000, 1}, {0x80F000, 0x2000, 3}, {0x80B000, 0x2000, 4}}, 0x1000).build()}
+	for _, im := range []*c06Image{wide, images[0]} {
+		for _, prod := range []int{3, 1} {
+			for _, vm := range []uint32{1, 4, 0} {
+				for _, mo := range []bool{false, true} {
+					if vm == 0 && (prod == 1 || !mo) && c.Quick() {
+						continue
+					}
+					r := base
+					r.im, r.snp, r.tdx, r.vm, r.svn, r.prod = im, true, false, vm, 5, prod
+					r.cl, r.commit = 77, nil
+					cs := c15Case{r: r, mo: mo, ow: true, budget: 2, vcsMode: "one", mread: 'M', cli: true, cliDir: cliDir}
+					res, line := c15Run(cs)
+					short := c15ShortLine(line) + " snp_product=" + []string{"", "Milan", "Genoa", "Turin"}[prod]
+					find := func(clause, what string) { c.Find("c06/cli/"+clause, what, short) }
+					files, printed := 0, 0
+					for _, v := range res.vcss {
+						files += len(v.files)
+					}
+					for _, e := range res.effs {
+						if strings.HasPrefix(e, "out:") {
+							printed++
+						}
+					}
+					if prod == 3 {
+						if res.res == "ok" {
+							find("unsupported-product/completes", "`endorse --add_snp --snp_product Turin` completed although Turin has no known address width (no launch digest is defined for it)")
+						}
+						if files > 0 {
+							find("unsupported-product/document-written", fmt.Sprintf("`endorse --snp_product Turin` wrote %d file(s)", files))
+						}
+						if len(res.signed) > 0 {
+							find("unsupported-product/signed", "`endorse --snp_product Turin` asked the signer for a signature")
+						}
+						if printed > 0 {
+							find("unsupported-product/measurement-printed", fmt.Sprintf("`endorse --measurement_only --snp_product Turin` printed %d measurement line(s)", printed))
+						}
+					} else if res.res != "ok" || (!mo && files == 0) || (mo && printed == 0) {
+						find("does-not-complete", "the control run (same flags, --snp_product Milan) did not complete ("+res.res+")")
+					}
+					c.Case(line, fmt.Sprintf("res=%s eff=%s", res.res, strings.Join(res.effs, ",")), true)
+					c.Count(fmt.Sprintf("cli/product-%s/%s/vm%d/mo%s/%s", []string{"", "Milan", "Genoa", "Turin"}[prod], im.name, vm, b2s(mo), res.res))
 				}
 			}
 		}
